@@ -243,7 +243,119 @@ Proof.
   - rewrite (key_eqb_sym tk dk). destruct (key_eqb_spec dk tk) as [E|E]; [|exact Hdt].
     cbn in Hdt. injection Hdt as <- <-. auto.
   - split; congruence.
-  - intros k. rewrite Hg3, !Hg2, !Hg1. unfold wo_src, wo_tgt.
+  - clearbody dk pk tk. intros k. rewrite Hg3, !Hg2, !Hg1. unfold wo_src, wo_tgt.
     rewrite (key_eqb_sym k pk), (key_eqb_sym k tk), (key_eqb_sym k dk).
     keys_case; try reflexivity; apply acct_ext; reflexivity.
 Qed.
+
+Section WriteOffCorollaries.
+  Variables (cx : ctx) (W : world) (amount : N) (p : proof) (W' : world)
+    (c : rd_config) (dk : key) (d : dist) (tail : list N) (pk : key) (dp : deposit) (idx : N) (tail1 tail2 : list N)
+    (tk : key) (t : dist) (ttail : list N).
+  Hypothesis F : write_off_facts cx W amount p W' c dk d tail pk dp idx tail1 tail2 tk t ttail.
+  Let E := wo_effect _ _ _ _ _ _ _ _ _ _ _ _ _ _ _ _ _ F.
+
+  (* no lamports move, no owner or size changes, anywhere *)
+  Theorem write_off_no_lamports k :
+    lamports (get W' k) = lamports (get W k) /\ owner (get W' k) = owner (get W k) /\ alen (get W' k) = alen (get W k).
+  Proof. rewrite E. destruct (key_eqb_spec k pk) as [->|]; [cbn; auto|].
+    destruct (key_eqb_spec k tk) as [->|]; [cbn; auto|]. destruct (key_eqb_spec k dk) as [->|]; cbn; auto. Qed.
+  (* no token account, mint or any other account that revenue-distribution does not own is touched *)
+  Theorem write_off_non_rd_frame k : owner (get W k) <> KRd -> get W' k = get W k.
+  Proof. intros Ho. rewrite E.
+    destruct (key_eqb_spec k pk) as [->|]; [destruct Ho; apply (wo_deposit_owner _ _ _ _ _ _ _ _ _ _ _ _ _ _ _ _ _ F)|].
+    destruct (key_eqb_spec k tk) as [->|]; [destruct Ho; apply (wo_target_owner _ _ _ _ _ _ _ _ _ _ _ _ _ _ _ _ _ F)|].
+    destruct (key_eqb_spec k dk) as [->|]; [destruct Ho; apply (wo_dist_owner _ _ _ _ _ _ _ _ _ _ _ _ _ _ _ _ _ F)|reflexivity]. Qed.
+  Theorem write_off_frame k : k <> pk -> k <> tk -> k <> dk -> get W' k = get W k.
+  Proof. intros. rewrite E, !key_eqb_neq by assumption. reflexivity. Qed.
+
+  (* the validator's lifetime written-off total rises by exactly the amount (no wrap) *)
+  Theorem write_off_deposit_after :
+    data (get W' pk) = DDeposit (dp <| dp_written_off := dp_written_off dp + amount |>) /\ dp_written_off dp + amount < two64.
+  Proof. split; [rewrite E, key_eqb_refl; reflexivity|apply (wo_written_off_fits _ _ _ _ _ _ _ _ _ _ _ _ _ _ _ _ _ F)]. Qed.
+
+  (* the target's uncollectible debt rises by exactly the amount and stays within its total debt *)
+  Theorem write_off_target_after :
+    data (get W' tk) = DDist (wo_tgt t amount) ttail /\
+    d_uncollectible (wo_tgt t amount) = d_uncollectible t + amount /\
+    d_uncollectible (wo_tgt t amount) <= d_total_debt (wo_tgt t amount) /\
+    (tk <> dk -> data (get W tk) = DDist t ttail) /\
+    (tk = dk -> d_uncollectible t = d_uncollectible d /\ d_total_debt t = d_total_debt d /\ d_writeoff_count t = wadd32 (d_writeoff_count d) 1 /\ ttail = tail2).
+  Proof.
+    destruct (wo_distinct _ _ _ _ _ _ _ _ _ _ _ _ _ _ _ _ _ F) as (H1 & H2).
+    pose proof (wo_target_read _ _ _ _ _ _ _ _ _ _ _ _ _ _ _ _ _ F) as R.
+    split; [rewrite E, (key_eqb_neq tk pk), key_eqb_refl by congruence; reflexivity|].
+    split; [reflexivity|]. split; [exact (wo_unc_le_total _ _ _ _ _ _ _ _ _ _ _ _ _ _ _ _ _ F)|]. split.
+    - intros Hne. rewrite (key_eqb_neq tk dk) in R by assumption. exact R.
+    - intros ->. rewrite key_eqb_refl in R. destruct R as [-> ->]. auto.
+  Qed.
+  (* the source's write-off count rises by one and both bitmaps get bit idx *)
+  Theorem write_off_source_after :
+    (tk <> dk -> data (get W' dk) = DDist (wo_src d) tail2) /\
+    (tk = dk -> data (get W' dk) = DDist (wo_tgt (wo_src d) amount) tail2).
+  Proof.
+    destruct (wo_distinct _ _ _ _ _ _ _ _ _ _ _ _ _ _ _ _ _ F) as (H1 & H2).
+    pose proof (wo_target_read _ _ _ _ _ _ _ _ _ _ _ _ _ _ _ _ _ F) as R. split.
+    - intros Hne. rewrite E, (key_eqb_neq dk pk), (key_eqb_neq dk tk), key_eqb_refl by congruence. reflexivity.
+    - intros ->. rewrite key_eqb_refl in R. destruct R as [-> ->]. rewrite E, (key_eqb_neq dk pk), key_eqb_refl by congruence. reflexivity.
+  Qed.
+
+  (* bits: with the two bitmaps in disjoint byte ranges, both bits were clear and are now set; nothing else changed *)
+  Theorem write_off_bits :
+    d_wo_end d <= d_debt_start d \/ d_debt_end d <= d_wo_start d ->
+    range_bit tail (d_wo_start d) idx = false /\ range_bit tail (d_debt_start d) idx = false /\
+    range_bit tail2 (d_wo_start d) idx = true /\ range_bit tail2 (d_debt_start d) idx = true /\ length tail2 = length tail /\
+    (forall i, i <> idx -> i / 8 < d_wo_end d - d_wo_start d -> range_bit tail2 (d_wo_start d) i = range_bit tail (d_wo_start d) i) /\
+    (forall i, i <> idx -> i / 8 < d_debt_end d - d_debt_start d -> range_bit tail2 (d_debt_start d) i = range_bit tail (d_debt_start d) i) /\
+    (forall s e i, i / 8 < e - s -> (e <= d_debt_start d \/ d_debt_end d <= s) -> (e <= d_wo_start d \/ d_wo_end d <= s) ->
+                   range_bit tail2 s i = range_bit tail s i).
+  Proof.
+    intros Hdis.
+    pose proof (wo_tail1 _ _ _ _ _ _ _ _ _ _ _ _ _ _ _ _ _ F) as P1. pose proof (wo_tail2 _ _ _ _ _ _ _ _ _ _ _ _ _ _ _ _ _ F) as P2.
+    destruct (process_leaf_range_bits _ _ _ _ _ P1) as (A1 & A2 & A3 & A4).
+    destruct (process_leaf_range_bits _ _ _ _ _ P2) as (B1 & B2 & B3 & B4).
+    destruct (process_leaf_bits _ _ _ _ _ P1) as (L1 & _). destruct (process_leaf_bits _ _ _ _ _ P2) as (L2 & _).
+    pose proof P1 as Q1. apply process_leaf_spec in Q1. destruct Q1 as (Q11 & Q12 & Q13 & _).
+    pose proof P2 as Q2. apply process_leaf_spec in Q2. destruct Q2 as (Q21 & Q22 & Q23 & _).
+    assert (forall i, i / 8 < d_debt_end d - d_debt_start d -> range_bit tail1 (d_debt_start d) i = range_bit tail (d_debt_start d) i) as X1
+      by (intros i Hi; apply (A4 _ (d_debt_end d)); [assumption|lia]).
+    assert (forall i, i / 8 < d_wo_end d - d_wo_start d -> range_bit tail2 (d_wo_start d) i = range_bit tail1 (d_wo_start d) i) as X2
+      by (intros i Hi; apply (B4 _ (d_wo_end d)); [assumption|lia]).
+    split; [assumption|]. split; [rewrite <- X1 by assumption; assumption|].
+    split; [rewrite X2 by assumption; assumption|]. split; [assumption|]. split; [congruence|]. split; [|split].
+    - intros i Hi Hin. rewrite X2 by assumption. apply A3; assumption.
+    - intros i Hi Hin. rewrite B3 by assumption. apply X1; assumption.
+    - intros s e i Hi H1 H2. rewrite (B4 s e i Hi H1). apply (A4 s e i Hi H2).
+  Qed.
+
+  Theorem write_off_leaf_in_tree L : L <> [] -> d_debt_root d = tree_root PRE_DEBT L ->
+    nth_error L (N.to_nat idx) = Some (LDebt (dp_node dp) amount).
+  Proof.
+    intros HL Hroot. pose proof (wo_root _ _ _ _ _ _ _ _ _ _ _ _ _ _ _ _ _ F) as Hr. rewrite Hroot in Hr.
+    destruct (tree_root_sound PRE_DEBT L p _ HL Hr) as (i & Hi & Hn).
+    rewrite (wo_index _ _ _ _ _ _ _ _ _ _ _ _ _ _ _ _ _ F) in Hi. injection Hi as <-. exact Hn.
+  Qed.
+End WriteOffCorollaries.
+
+(* non-vacuity: validator 11 (300 lamports of debt, deposit holds only rent + 100) is written off, once into its own
+   distribution (aliasing case) and once into a later one *)
+Definition ex_dist5w : dist := ex_dist5 <| d_writeoff_enabled := true |> <| d_wo_start := 1 |> <| d_wo_end := 2 |>.
+Definition ex_dist6 : dist := dist_default <| d_epoch := 6 |> <| d_debt_final := true |> <| d_total_debt := 1000 |> <| d_relay := 6000 |>.
+Definition ex_wo_world : world := ex_world [
+  (KRdConfig, ex_acct (rent LEN_CONFIG_ALLOC) LEN_CONFIG_ALLOC (DConfig ex_cfg));
+  (KRdDist 5, ex_acct (rent (LEN_DIST + 2)) (LEN_DIST + 2) (DDist ex_dist5w [0; 0]));
+  (KRdDist 6, ex_acct (rent LEN_DIST) LEN_DIST (DDist ex_dist6 []));
+  (KRdDeposit (KUser 11), ex_acct (rent LEN_DEPOSIT + 100) LEN_DEPOSIT (DDeposit {| dp_node := KUser 11; dp_written_off := 7 |}))].
+Definition ex_wo_cx (target : key) : ctx := ex_cx KRd [mk KRdConfig false false; mk (KUser 2) true false; mk (KRdDist 5) false true;
+                                         mk (KRdDeposit (KUser 11)) false true; mk target false true].
+Example rd_write_off_nonvacuous :
+  (exists W', rd_write_off (ex_wo_cx (KRdDist 5)) ex_wo_world 300 (proof_for PRE_DEBT ex_debts 0) = Ok W' /\
+     data (get W' (KRdDist 5)) = DDist (wo_tgt (wo_src ex_dist5w) 300) [1; 1] /\
+     data (get W' (KRdDeposit (KUser 11))) = DDeposit {| dp_node := KUser 11; dp_written_off := 307 |} /\
+     (* the same leaf can be neither written off again nor paid afterwards *)
+     is_ok (rd_write_off (ex_wo_cx (KRdDist 5)) W' 300 (proof_for PRE_DEBT ex_debts 0)) = false /\
+     is_ok (rd_pay_debt (ex_cx KRd [mk KRdConfig false false; mk (KRdDist 5) false true; mk (KRdDeposit (KUser 11)) false true;
+                                    mk KRdJournal false true]) W' 300 (proof_for PRE_DEBT ex_debts 0)) = false) /\
+  (exists W', rd_write_off (ex_wo_cx (KRdDist 6)) ex_wo_world 300 (proof_for PRE_DEBT ex_debts 0) = Ok W' /\
+     data (get W' (KRdDist 5)) = DDist (wo_src ex_dist5w) [1; 1] /\ data (get W' (KRdDist 6)) = DDist (wo_tgt ex_dist6 300) []).
+Proof. split; eexists; (split; [vm_compute; reflexivity|]); vm_compute; repeat split. Qed.
